@@ -869,3 +869,139 @@ def render_if(it, indent, kw):
         else:
             s += "%s#else\n%s{\n%s%s}\n" % (indent, indent, render_items(it["else"], indent + "    "), indent)
     return s
+
+
+# ---------------------------------------------------------------------------
+# C17: asm-block macros and user functions
+
+def ph(name, b):
+    return {"k": "ph", "s": name, "lc": "{" + name + "}", "c0": "{", "text": [], "b": b}
+
+
+def gen_macro_program(rng):
+    isa = gen_isa(rng)
+    base = [(r, ops) for r, ops in isa["top"]]
+    rules = list(isa["rules"])
+    macros = []
+    fns = []
+    # user functions
+    fnames = []
+    for i in range(rng.randrange(0, 3)):
+        name = "fn%d" % i
+        params = ["p", "q"][:rng.choice([1, 2])]
+        c = rng.random()
+        if c < 0.5:
+            body = {"k": "bin", "op": rng.choice(["add", "sub", "mul", "and"]), "l": var(params[0]),
+                    "r": var(params[-1]) if len(params) > 1 else {"k": "num", "text": list(str(rng.randrange(1, 9)))}}
+        elif c < 0.8 and fnames:
+            body = {"k": "call", "f": rng.choice(fnames), "args": [var(params[0])] * 1}
+            # arity may be wrong on purpose sometimes
+        elif c < 0.9:
+            body = {"k": "call", "f": name, "args": [var(p) for p in params]}        # unbounded recursion
+        else:
+            body = {"k": "tern", "c": {"k": "bin", "op": "lt", "l": var(params[0]), "r": {"k": "num", "text": ["8"]}},
+                    "t": var(params[0]), "f": {"k": "num", "text": ["8"]}}
+        fns.append({"name": name, "params": params, "body": body})
+        fnames.append(name)
+    # a rule whose production calls a function
+    if fnames and rng.random() < 0.8:
+        f = rng.choice(fns)
+        args = [var("a")] + ([{"k": "num", "text": ["3"]}] if len(f["params"]) > 1 else [])
+        rules.append({"block": "cpu", "sub": False, "pat": [_lit("fcall"), {"p": "ws"}, _par("a")],
+                      "prod": concat([numlit("0xf0"), {"k": "sshort", "e": {"k": "call", "f": f["name"], "args": args}, "n": numlit("8")}])})
+        base.append((rules[-1], [("untyped", 8)]))
+    # macros over the base rules
+    nm = rng.randrange(1, 4)
+    for k in range(nm):
+        params = ["a", "b"][:rng.choice([1, 2])]
+        lines = []
+        for j in range(rng.randrange(1, 4)):
+            if rng.random() < 0.12:
+                lines.append({"k": "label", "name": "m%d_%d" % (k, j), "toks": []})
+                continue
+            pool = base + [(m["rule"], m["ops"]) for m in macros if rng.random() < 0.5]
+            if not pool:
+                break
+            rule, ops = rng.choice(pool)
+            labs = [l["name"] for l in lines if l["k"] == "label"]
+            toks = instantiate(rng, rule, ops, labs + ["lab0"], [])
+            # replace some expression operands (runs of non-literal tokens) by placeholders
+            out, i2 = [], 0
+            while i2 < len(toks):
+                t = toks[i2]
+                if not t.get("lit") and t["k"] in ("num", "id") and rng.random() < 0.6 and t["s"] not in ("$",):
+                    out.append(ph(rng.choice(params), t["b"]))
+                    # swallow the rest of a simple operand
+                    i2 += 1
+                    continue
+                out.append(t)
+                i2 += 1
+            lines.append({"k": "instr", "name": "", "toks": out})
+        if rng.random() < 0.06:
+            # a macro that calls itself: must be an error, not a hang
+            lines.append({"k": "instr", "name": "", "toks": [tok("id", "mac%d" % k, True)] +
+                          sum([[ph(p, True)] + ([tok("op", ",", False)] if i3 + 1 < len(params) else []) for i3, p in enumerate(params)], [])})
+        pat = [_lit("mac%d" % k)]
+        for i3, p in enumerate(params):
+            pat.append({"p": "ws"} if i3 == 0 else _lit(","))
+            if i3 > 0:
+                pat.append({"p": "ws"})
+            ty = rng.choice([("none", 0), ("none", 0), ("u", 8), ("i", 8)])
+            pat.append(_par(p, ty[0], ty[1]))
+        rule = {"block": "cpu", "sub": False, "pat": pat, "prod": {"k": "asm", "lines": lines}}
+        rules.append(rule)
+        macros.append({"rule": rule, "ops": [("typed", "u", 8) if x["p"] == "par" and x["ty"] != "none" else ("untyped", 8)
+                                             for x in pat if x["p"] == "par"]})
+    # the program
+    labels = ["lab0", "lab1"]
+    items = [_item(k="label", lvl=0, name="lab0")]
+    for i in range(rng.randrange(2, 9)):
+        c = rng.random()
+        if c < 0.5 and macros:
+            m = rng.choice(macros)
+            items.append(_item(k="instr", toks=instantiate(rng, m["rule"], m["ops"], labels, [])))
+        elif c < 0.8 and base:
+            rule, ops = rng.choice(base)
+            items.append(_item(k="instr", toks=instantiate(rng, rule, ops, labels, [])))
+        elif c < 0.9 and fnames:
+            f = rng.choice(fns)
+            items.append(_item(k="data", w=8, es=[{"k": "call", "f": f["name"],
+                                                   "args": [{"k": "num", "text": list(str(rng.randrange(0, 9)))} for _ in f["params"]]}]))
+        else:
+            items.append(_item(k="data", w=8, es=[{"k": "num", "text": list(str(rng.randrange(0, 200)))}]))
+    items.append(_item(k="label", lvl=0, name="lab1"))
+    return {"rules": rules, "items": items, "fns": fns}
+
+
+def render_macro_program(P):
+    out = []
+    for f in P.get("fns", []):
+        out.append("#fn %s(%s) => %s\n" % (f["name"], ", ".join(f["params"]), genexpr.render(f["body"])))
+    blocks, order = {}, []
+    for r in P["rules"]:
+        key = (r["block"], r["sub"])
+        if key not in blocks:
+            blocks[key] = []
+            order.append(key)
+        blocks[key].append(r)
+    for key in order:
+        name, sub = key
+        out.append("%s %s\n{\n" % ("#subruledef" if sub else "#ruledef", name))
+        for r in blocks[key]:
+            if r["prod"].get("k") == "asm":
+                out.append("    %s => asm\n    {\n" % render_pattern(r["pat"]))
+                for ln in r["prod"]["lines"]:
+                    if ln["k"] == "label":
+                        out.append("        %s:\n" % ln["name"])
+                    else:
+                        txt = []
+                        for i, t in enumerate(ln["toks"]):
+                            sp = "{%s}" % t["s"] if t["k"] == "ph" else ("".join(t["text"]) if t["k"] == "num" else t["s"])
+                            txt.append((" " if (t["b"] and i > 0) else "") + sp)
+                        out.append("        " + "".join(txt) + "\n")
+                out.append("    }\n")
+            else:
+                out.append("    %s => %s\n" % (render_pattern(r["pat"]), genexpr.render(r["prod"])))
+        out.append("}\n")
+    body = render_program({"rules": [], "items": P["items"]})
+    return "".join(out) + body
